@@ -93,6 +93,8 @@ check('C15', 'model_checking',
       '(objects of three kinds with explicit / automatic tags, taper, sources in both forms with unit and other voltages, lumped loads of the '
       'four kinds with every attachment form, tagged and global skin-effect loads). TLC checks Accepted, RoundTrip and FixPoint on the design '
       'variant and dumps every command line of the variant matching the code with its predicted verdict. Every command line is concretised '
+      '(spec/AttachForms.tla adds the compaction rule of the attachment writer over bags of pulses: the code\'s rule holds, the rule before fix '
+      'eb437c2 must stay refuted, all 584 final states are replayed) '
       '(chained and separate wire layouts, later wires with 7 or 3 segments so that repeated attachments can equal the pulse count, '
       'transformations, scaling, five media forms), built by the real main(), written by as_cmdline() '
       '(plain and load_by_geo), read back by main(), and the two models are compared by projection; the re-written option file must equal '
